@@ -3,7 +3,7 @@
    (b) the reference semantics Model/SqlSpec.v, i.e. the property itself (spec_ok).
    Evaluated by vm_compute; definitions only. *)
 From Coq Require Import ZArith List Bool.
-From TV Require Import Model.SqlSpec Model.PredImpl.
+From TV Require Export Model.SqlSpec Model.PredImpl.
 Import ListNotations.
 Open Scope Z_scope.
 
